@@ -848,21 +848,37 @@ def _site_sig(call):
 
 # ====================================================================== E5 cache typestate (C14)
 
+def _is_ptr(t):
+    """pointer type, also when the pointer itself is qualified (`T *const p`)"""
+    t = (t or '').rstrip()
+    for _ in range(3):
+        for q in ('const', 'restrict', '__restrict', 'volatile'):
+            if t.endswith(q) and not (t[:-len(q)][-1:].isalnum() or t[:-len(q)][-1:] == '_'):
+                t = t[:-len(q)].rstrip()
+    return t.endswith('*')
+
+
 def _npp(e, fs, depth=0):
     """pp with single-definition pointer locals replaced by their defining expression (alias-neutral matching)"""
     e = strip(e, casts=True)
     if e is None:
         return ''
-    if e.kind == 'DeclRefExpr' and e.refkind == 'VarDecl' and depth < 4 and type_is_pointer(e.type):
+    if e.kind == 'DeclRefExpr' and e.refkind == 'VarDecl' and depth < 4 and _is_ptr(e.type):
         d = fs.single_def(e.refid)
         if d is not None and strip(d, casts=True).kind in ('MemberExpr', 'DeclRefExpr', 'UnaryOperator'):
             return _npp(d, fs, depth + 1)
+        d0 = strip(d, casts=True) if d is not None else None
+        if d0 is not None and d0.kind == 'BinaryOperator' and d0.op == '+':
+            # p = X + i  is  p = &X[i]
+            for (pt, ix) in ((d0.kids[0], d0.kids[1]), (d0.kids[1], d0.kids[0])):
+                if _is_ptr(strip(pt, casts=True).type or ''):
+                    return '&' + _npp(pt, fs, depth + 1) + '[' + pp(strip(ix, casts=True)) + ']'
     if e.kind == 'MemberExpr':
         b0 = strip(e.kids[0], casts=True)
         if e.arrow and b0 is not None and b0.kind == 'BinaryOperator' and b0.op == '+':
             # (X + i)->f  is  X[i].f
             for (pt, ix) in ((b0.kids[0], b0.kids[1]), (b0.kids[1], b0.kids[0])):
-                if type_is_pointer(strip(pt, casts=True).type or ''):
+                if _is_ptr(strip(pt, casts=True).type or ''):
                     return _npp(pt, fs, depth) + '[' + pp(strip(ix, casts=True)) + '].' + (e.name or '?')
         b = _npp(e.kids[0], fs, depth)
         if e.arrow and b.startswith('&'):
@@ -1149,18 +1165,24 @@ def rule_E5(ctx, prog, label, rule='E5'):
         dom = g.dominators()
         from .symbolic import FuncSym as _FS
         fsu = _FS(f)
-        frees = [c for c in f.body.find('CallExpr') if callee_name(c) == 'm4ri_mm_free' and pp(strip(c.kids[1], casts=True)) == 'cache']
+        # the block cursor: the local of type mzd_t_cache_t * that is handed to m4ri_mm_free (whatever its name)
+        frees = []
+        for c in f.body.find('CallExpr'):
+            a_ = strip(c.kids[1], casts=True) if callee_name(c) == 'm4ri_mm_free' and len(c.kids) > 1 else None
+            if a_ is not None and a_.kind == 'DeclRefExpr' and a_.refkind == 'VarDecl' and 'mzd_t_cache_t' in (a_.type or ''):
+                frees.append(c)
+        cur = pp(strip(frees[0].kids[1], casts=True)) if frees else 'cache'
         st_ = _stores(f, fsu)
         ok = bool(frees)
         why = 'an emptied secondary header block is never released' if not frees else ''
         for c in frees:
             cn = _cnode_of(g, c)
-            relink_next = [n for (l, r, n) in st_ if l == 'cache->prev->next' and _npp(r, fsu) == 'cache->next']
-            relink_prev = [n for (l, r, n) in st_ if l == 'cache->next->prev' and _npp(r, fsu) == 'cache->prev']
+            relink_next = [n for (l, r, n) in st_ if l == cur + '->prev->next' and _npp(r, fsu) == cur + '->next']
+            relink_prev = [n for (l, r, n) in st_ if l == cur + '->next->prev' and _npp(r, fsu) == cur + '->prev']
             if not relink_next or _cnode_of(g, relink_next[0]).id not in dom.get(cn.id, ()):
-                ok, why = False, 'the block is freed without `cache->prev->next = cache->next`'
+                ok, why = False, 'the block is freed without `%s->prev->next = %s->next`' % (cur, cur)
             if not relink_prev:
-                ok, why = False, 'the block is freed without repairing `cache->next->prev`'
+                ok, why = False, 'the block is freed without repairing `%s->next->prev`' % cur
             # never the static first block: the free must not be reachable through the edge cache == &mzd_cache
             seen = set()
             stk = [g.entry]
@@ -1172,13 +1194,13 @@ def rule_E5(ctx, prog, label, rule='E5'):
                 for (lab, m) in n.succs:
                     if n.kind == 'branch':
                         cc = strip(n.ast, casts=True)
-                        if cc.kind == 'BinaryOperator' and cc.op in ('==', '!=') and '&mzd_cache' in pp(cc) and 'cache' in pp(cc).replace('&mzd_cache', ''):
-                            # skip the edge on which cache != &mzd_cache
+                        if cc.kind == 'BinaryOperator' and cc.op in ('==', '!=') and '&mzd_cache' in pp(cc) and cur in [pp(strip(k_, casts=True)) for k_ in cc.kids]:
+                            # skip the edge on which the cursor != &mzd_cache
                             if lab is (cc.op == '!='):
                                 continue
                     stk.append(m)
             if cn.id in seen:
-                ok, why = False, 'm4ri_mm_free(cache) is reachable with cache == &mzd_cache (static storage)'
+                ok, why = False, 'm4ri_mm_free(%s) is reachable with %s == &mzd_cache (static storage)' % (cur, cur)
         ob(ok, 'header-block-unlinked-before-free', 'an emptied secondary header block is unlinked on both sides, is never the static block, and is released', f, why)
     rr.require_floor(3, 'cache obligations')
     return rr
